@@ -412,6 +412,11 @@ func runCheck(id, tier string, seed int, repo string, overlay map[string][]byte,
 			}
 			kf := matchKnown(known, id, o, r, outDir, timeout)
 			why, shaped := shapeChanged[o.Func]
+			if o.Kind == "guarded" {
+				// lock-discipline obligations depend on the ghost lock state only, which no
+				// call havocs: a new callee or loop cannot make them fail
+				shaped = false
+			}
 			switch {
 			case kf != nil:
 				rep.Verdict = "known-finding"
